@@ -72,6 +72,9 @@ fn scenario(outs: &[Out], concurrent: bool, panic_on_drop: bool) -> Option<Strin
         let r = std::panic::catch_unwind(std::panic::AssertUnwindSafe(|| {
             cell.get_or_try_init(|_seed| match o {
                 Out::Ok => {
+                    if concurrent {
+                        std::thread::sleep(std::time::Duration::from_micros(300));
+                    }
                     c.ok_runs.fetch_add(1, Ordering::SeqCst);
                     Ok(Val { c: c.clone(), n: i as u64 })
                 }
@@ -171,6 +174,9 @@ fn scenario_no_drop(outs: &[Out], concurrent: bool) -> Option<String> {
         let r = std::panic::catch_unwind(std::panic::AssertUnwindSafe(|| {
             cell.get_or_try_init(|seed| {
                 *seed += 1;
+                if concurrent {
+                    std::thread::sleep(std::time::Duration::from_micros(300));
+                }
                 match o {
                     Out::Ok => {
                         vd.ok_runs.fetch_add(1, Ordering::SeqCst);
@@ -187,10 +193,15 @@ fn scenario_no_drop(outs: &[Out], concurrent: bool) -> Option<String> {
         }
     };
     if concurrent {
+        let b = Barrier::new(outs.len().max(1));
         std::thread::scope(|s| {
             for (i, o) in outs.iter().enumerate() {
                 let attempt = &attempt;
-                s.spawn(move || attempt(i, *o));
+                let b = &b;
+                s.spawn(move || {
+                    b.wait();
+                    attempt(i, *o)
+                });
             }
         });
     } else {
